@@ -71,3 +71,10 @@ func TestVerifC14Regressions(t *testing.T) {
 func TestVerifC15Decorator(t *testing.T) {
 	vs.Run(t, "C15", func(c *vs.Case) error { return vw.PropC15(c, decoratorFactory, "decorator") })
 }
+
+func TestVerifC20Decorator(t *testing.T) {
+	vs.Run(t, "C20", func(c *vs.Case) error {
+		env := vw.NewC20Env()
+		return vw.PropC20(c, "decorator", env, newC20DecoratorDriver(env))
+	})
+}
